@@ -102,7 +102,7 @@ fn snapshot(g: &MoveGen) -> ([(u8, u64, bool); MAXN], usize, usize, usize, u64) 
     (a, g.moves.len(), g.index, g.promotion_index, g.iterator_mask.0)
 }
 
-// @ob id=O14.2k props=C14,C04 tier=quick kind=bounded bound="move list of at most 3 slots (real NoDrop<ArrayVec<_,18>>); slot contents, mask, index, promotion_index fully symbolic under the iterator invariant" fn="ExactSizeIterator::len for MoveGen,Iterator::size_hint for MoveGen" desc="at EVERY moment of an iteration (any state satisfying the iterator invariant, incl. partly consumed slots and a promotion in progress) len() equals the number of moves still to be yielded under the current mask, and size_hint() == (len, Some(len)); the generator is not modified"
+// @ob id=O14.2k props=C14 also=C04 tier=quick kind=bounded bound="move list of at most 3 slots (real NoDrop<ArrayVec<_,18>>); slot contents, mask, index, promotion_index fully symbolic under the iterator invariant" fn="ExactSizeIterator::len for MoveGen,Iterator::size_hint for MoveGen" desc="at EVERY moment of an iteration (any state satisfying the iterator invariant, incl. partly consumed slots and a promotion in progress) len() equals the number of moves still to be yielded under the current mask, and size_hint() == (len, Some(len)); the generator is not modified"
 #[kani::proof]
 #[kani::unwind(5)]
 fn c14_len_exact() {
@@ -117,7 +117,7 @@ fn c14_len_exact() {
     kani::cover!(g.promotion_index > 0);
 }
 
-// @ob id=O14.1k props=C14,C01 tier=quick kind=bounded bound="move list of at most 3 slots (real ArrayVec)" fn="Iterator::next for MoveGen" desc="one step from ANY state satisfying the invariant: None exactly when nothing is pending (state unchanged); otherwise the yielded move is (square of slot index, lowest masked destination of that slot, promotion piece PROMOTION_PIECES[promotion_index] for promotion slots and None otherwise), the pending count drops by exactly one, the destination bit is cleared exactly when the move (or the fourth promotion) consumed it, no other slot, the mask and the list length change, and the invariant is re-established"
+// @ob id=O14.1k props=C14 also=C01 tier=quick kind=bounded bound="move list of at most 3 slots (real ArrayVec)" fn="Iterator::next for MoveGen" desc="one step from ANY state satisfying the invariant: None exactly when nothing is pending (state unchanged); otherwise the yielded move is (square of slot index, lowest masked destination of that slot, promotion piece PROMOTION_PIECES[promotion_index] for promotion slots and None otherwise), the pending count drops by exactly one, the destination bit is cleared exactly when the move (or the fourth promotion) consumed it, no other slot, the mask and the list length change, and the invariant is re-established"
 #[kani::proof]
 #[kani::unwind(5)]
 fn c14_next_step() {
